@@ -251,3 +251,9 @@ def run(chk):
     check_has_sig(chk, F, P)
     from . import assembly
     assembly.check_assembly(chk, F, "R01.3")
+    # R01.5: what a returned satisfaction reports (stack, absolute lock, relative lock) belongs to one candidate --
+    # a lock copied from a discarded branch makes the spend invalid or wrongly delayed (rule shared with C17)
+    from . import c17
+    from ..report import RuleAlias
+    c17.check_provenance(RuleAlias(chk, {"R17.3": "R01.5"}, "every satisfaction the choosers return takes its stack "
+                                                            "and both locks from the same candidate"), F, P)
